@@ -93,6 +93,11 @@ def pipeline_check(pid, tier, seed, extra_hook=None):
                 out.violation(finding_signature(profile, f), "variant: %s (case %s): %s vs %s" % (f["msg"], f["case"], f["expected"], f["observed"]),
                               {"profile": profile, "opts": opts, "grammar_text": f["grammar_text"], "grammar_text_ref": f["grammar_text_ref"],
                                "case": f["case"], "expected": f["expected"], "observed": f["observed"], "kind": "variant", "run_key": s["key"]})
+        if pid == "C13":
+            for f in s.get("type_section_findings", []):
+                out.violation("types_differ:%s:%s" % (profile, hashlib.sha256(f["grammar_text"].encode()).hexdigest()[:10]), f["msg"],
+                              {"profile": profile, "opts": opts, "grammar_text": f["grammar_text"], "expected": f["expected"], "observed": f["observed"], "kind": "types_differ"})
+            agg["type_sections_compared"] = agg.get("type_sections_compared", 0) + s.get("type_sections_compared", 0)
         out.inconc("generator_error", s["n_generator_errors"])
         out.inconc("grammar_rejected_by_compiler", s["n_pgen_fail"])
         out.inconc("unit_did_not_compile(see C03)", s["n_compile_fail"])
